@@ -365,6 +365,7 @@ impl DetachedReceiver {
            &&& on_session(i1, *session)
            &&& i1.ops@.len() >= self.inner.ops@.len() + 1 && i1.ops@[self.inner.ops@.len() as int] == (Op::Resume { session: session.control.id@, outgoing: session.outgoing.id@, remote: Some(remote_attach), reattaching: self.inner.session.id@ != session.control.id@ })
            &&& i1.ops@.len() > self.inner.ops@.len() + 1 ==> i1.ops@.len() == self.inner.ops@.len() + 2 && i1.ops@.last() == (Op::Detach { session: session.control.id@, outgoing: session.outgoing.id@, error: None::<AmqpError> }) }),       // [C13.resume.on-the-session-named] [C11.resume.on-the-session-named] [C13.resume.timed-out-attach-is-detached] the attach, and the detach that takes a timed-out attach back, both go through the NEW session's control channel AND frame queue
+        r is Ok ==> names(r->Ok_0, resume_res(ReceiverInner { session: session.control, outgoing: session.outgoing, ..self.inner }, Some(remote_attach), self.inner.session.id@ != session.control.id@)->Ok_0),       // [C13.resume.outcome-names-the-exchange]
 //@@ end
 }
 } // mod rcv
